@@ -127,6 +127,51 @@ def quote_name_known(i: int) -> bool:
     return _name_is_factor(KNOWN_UNQUOTABLE[_pick(i, 0, 1)])
 
 
+def quote_routes(k: int, r: int, pos: int) -> bool:
+    """
+    pre: 0 <= k < 101 and 0 <= r < 7 and 0 <= pos < 4 and k % 4 == __SHARD__ and r == __R__
+    post: _
+    """
+    # Quoted text is verbatim for EVERY parser configuration and specification style: the parser that adds no
+    # intercept (also used for the entries of list / dict specifications) locates and splits operators itself.
+    from formulaic.formula import Formula
+    from formulaic.parser import DefaultFormulaParser
+
+    c = NAME_CHARS[_pick(k, 0, 100)]
+    r, pos = _pick(r, 0, 6), _pick(pos, 0, 3)
+    n = [c, c + "b", "a" + c, "a" + c + "b"][pos]
+    if n in KNOWN_UNQUOTABLE:
+        return True
+    bare = DefaultFormulaParser(include_intercept=False)
+    fx = lambda f: [[fa.expr for fa in t.factors] for t in f]
+    q = "`" + n + "`"
+    if r == 0:
+        return fx(Formula.from_spec(q)) == [["1"], [n]]
+    if r == 1:
+        return fx(Formula.from_spec(q, parser=bare)) == [[n]]
+    if r == 2:
+        return fx(Formula.from_spec(["zz", q])) == [["zz"], [n]]
+    if r == 3:
+        f = Formula.from_spec("y ~ " + q + " + zz", parser=bare)
+        return fx(f.lhs) == [["y"]] and fx(f.rhs) == [[n], ["zz"]]
+    if r == 4:
+        f = Formula.from_spec("y ~ zz | " + q, parser=bare)
+        return fx(f.lhs) == [["y"]] and fx(f.rhs[0]) == [["zz"]] and fx(f.rhs[1]) == [[n]]
+    if r == 5:
+        f = Formula.from_spec({"u": q + ":zz", "v": "y ~ " + q})
+        return fx(f.u) == [[n, "zz"]] and fx(f.v.lhs) == [["y"]] and fx(f.v.rhs) == [[n]]
+    # a Python fragment holding the text as a string literal, and as a quoted name, in a list specification
+    if "'" in n or chr(92) in n or "\n" in n or "\x00" in n:
+        return True
+    import ast
+
+    t = fx(Formula.from_spec(["zz", "f('" + n + "', " + q + ")"]))
+    if len(t) != 2 or t[0] != ["zz"] or len(t[1]) != 1:
+        return False
+    node = ast.parse(t[1][0].replace(q, "Q"), mode="eval").body if q in t[1][0] else None
+    return node is not None and ast.literal_eval(node.args[0]) == n and isinstance(node.args[1], ast.Name)
+
+
 def _name_is_factor(n: str) -> bool:
     from formulaic.formula import Formula
 
@@ -339,6 +384,11 @@ def explain(fname, call):
         if fname == "ws_pair":
             i, j, w, lead, trail = (a + [None] * 5)[:5] if a else (kw.get("i"), kw.get("j"), kw.get("w"), kw.get("lead"), kw.get("trail"))
             return f"whitespace: tokens of {lead + SYMS[i] + w + SYMS[j] + trail!r} differ from those of {SYMS[i] + ' ' + SYMS[j]!r}"
+        if fname == "quote_routes":
+            n = [NAME_CHARS[a[0]], NAME_CHARS[a[0]] + "b", "a" + NAME_CHARS[a[0]], "a" + NAME_CHARS[a[0]] + "b"][a[2]]
+            route = ["default parser", "parser without intercept", "list specification", "two-sided, parser without intercept", "multi-part, parser without intercept",
+                     "dict specification", "Python fragment in a list specification"][a[1]]
+            return f"quoting-routes: back-tick name {n!r} is not taken verbatim by: {route}"
         if fname == "quote_name_factor":
             return f"quoting: back-tick name {NAME_CHARS[a[0]]!r} is not taken verbatim"
         if fname == "quote_name":
